@@ -184,6 +184,7 @@ def main(argv):
 
     # ---- classify -----------------------------------------------------------
     violations, harness_errors, known_lines, notes = [], [], [], []
+    known_hits = {}
     functions = set()
     rows = []
     total_paths = 0
@@ -273,8 +274,7 @@ def main(argv):
                     harness_errors.append('%s: known-class %s counterexample %s does not reproduce'
                                           % (ob.oid, k, kr.get('call')))
                 elif k in known:
-                    known_lines.append('KNOWN-FINDING: property=%s %s [class %s, obligation %s, e.g. %s]'
-                                       % (prop, known[k]['what'], k, ob.oid, kr.get('call')))
+                    known_hits.setdefault(k, []).append((ob.oid, kr.get('call')))
                 else:
                     path = write_replay(prop, modname, ob, kr['call'], ob.lift)
                     violations.append((ob, kr['call'], path, rp.get('how')))
@@ -285,6 +285,9 @@ def main(argv):
             row.setdefault('known_classes', []).append(krow)
         rows.append(row)
 
+    for k, hits in sorted(known_hits.items()):
+        known_lines.append('KNOWN-FINDING: property=%s %s [class %s; re-confirmed by %d obligation(s), e.g. %s %s]'
+                           % (prop, known[k]['what'], k, len(hits), hits[0][0], hits[0][1]))
     wall = time.time() - t_start
     assumptions = list(meta.get('assumptions', []))
     extra = {
